@@ -552,7 +552,11 @@ func c13Exec(ctx *vk.Ctx, c c13Case) error {
 		}
 		if op.PreVictim && strings.HasPrefix(op.Ctx, "bw-") {
 			// the victim writes its own parameter (the key may be refused; then nothing exists, which is fine)
-			steps = append(steps, c13Op{Kind: "victim", Setter: op.Setter, Key: op.Key, Val: "9" + op.Val})
+			vv := map[string]string{"string": "w" + op.Val, "bytes": "w" + op.Val, "bool": "true", "int64": "7", "uint64": "7"}[op.Setter]
+			if vv == "" {
+				vv = "w"
+			}
+			steps = append(steps, c13Op{Kind: "victim", Setter: op.Setter, Key: op.Key, Val: vv})
 		}
 		steps = append(steps, op)
 	}
@@ -573,7 +577,7 @@ func c13Exec(ctx *vk.Ctx, c c13Case) error {
 				allowed, exactRealm = []string{c13PathA}, c13PathA
 			}
 		case "victim":
-			msg = ec.Call(e.keys[0].Addr, c13PathB, "Do", []string{op.Setter, op.Key, op.Val}, nil)
+			msg = ec.Call(user.Addr, c13PathB, "Do", []string{op.Setter, op.Key, op.Val}, nil)
 			allowed, exactRealm = []string{c13PathB}, c13PathB
 		case "run":
 			msg = ec.HMsg{Kind: "run", Body: c13RunSrc(op)}.Build(user.Addr, e.keys)
@@ -623,6 +627,7 @@ func c13Exec(ctx *vk.Ctx, c c13Case) error {
 		if op.Kind != "sys" {
 			ctx.Class("ctx=" + op.Kind + "/" + op.Ctx)
 			ctx.ClassIf(ok, "realm-write-accepted")
+			ctx.ClassIf(ok && strings.HasPrefix(op.Ctx, "bw-"), "borrowed-receiver-write-accepted/"+op.Kind)
 			ctx.ClassIf(!ok && (op.Key == "" || strings.Contains(op.Key, ":")), "realm-write-refused-bad-key")
 			ctx.ClassIf(!ok && op.Key != "" && !strings.Contains(op.Key, ":"), "realm-write-failed-other")
 			if hostile && reached {
@@ -730,7 +735,7 @@ func c13KeyOwned(k string, realms []string) bool {
 func TestC13_ParamOwnership(t *testing.T) {
 	vk.Run(t, vk.Spec[c13Case]{
 		ID: "C13", Name: "TestC13_ParamOwnership",
-		Rule: "rapid: 3-8 parameter-write attempts, one tx per block, on the real app with attacker realms deployed: chain/params setters (7 setters) called with hostile keys (':' in every position, module/realm-path prefixes, NUL, '/', unicode look-alikes, empty, 1000 bytes) from a crossing function, a method, a /p/ helper, a /p/ callback, a closure run inside another realm, a second realm, a defer, a recover block, a self-cross, MsgRun main, MsgRun->cross, and package init; plus sys/params natives called from a foreign realm and from a stand-in gno.land/r/sys/params with acceptable and unacceptable module values; non-trivial = a hostile key reached the native (accepted, or refused by the key check) or a sys/params call was made",
+		Rule: "rapid: 3-8 parameter-write attempts, one tx per block, on the real app with attacker realms deployed: chain/params setters (7 setters) called with hostile keys (':' in every position, module/realm-path prefixes, NUL, '/', unicode look-alikes, empty, 1000 bytes) from a crossing function, a method, a /p/ helper, borrowed receivers (methods of /p/- and realm-declared types on objects stored in a victim realm, called directly, as method value, through an interface, through a getter, by value; optionally after the victim created its own parameter under the same key), a /p/ callback, a closure run inside another realm, a second realm, a defer, a recover block, a self-cross, MsgRun main, MsgRun->cross, and package init; plus sys/params natives called from a foreign realm and from a stand-in gno.land/r/sys/params with acceptable and unacceptable module values; non-trivial = a hostile key reached the native (accepted, or refused by the key check) or a sys/params call was made",
 		Draw: func(rt *rapid.T) c13Case {
 			n := rapid.IntRange(3, 8).Draw(rt, "nops")
 			var c c13Case
